@@ -21,8 +21,9 @@ abbrev rows (ps : List P) : List Row := ps.map rowOf
 /-- the application state the statement defines -/
 abbrev specState (ps : List P) : AState := stateOf (ps.map displayed)
 
-/-- every pattern of the leaf table compiles (an invalid regular expression is an input class of its own) -/
-def LeavesCompile (L : List Leaf) : Prop := ∀ (k c : Nat), L[k]? ≠ some (Leaf.reError c)
+/-- every pattern of the leaf table compiles, or `re.compile` raises one of the classes `_get_matches` maps to a parse
+    error (`re.error`, `OverflowError`); excluded: any other exception of the regex compiler (e.g. `RecursionError`) -/
+def LeavesHandled (L : List Leaf) : Prop := ∀ (k c : Nat), L[k]? = some (Leaf.reError c) → regexMapped c = true
 
 /-! ### State -/
 
@@ -61,60 +62,61 @@ theorem C15_required_def (cfg : Cfg) (L : List Leaf) (ps : List P) :
     rw [List.map_map]; rfl
   simp only [statusTree, hst]
 
-/-- the same for the strings the setter refuses (no parse, not exactly one statement), for a statement whose `value`
-    is `None`, and when nothing is configured: the formula is ignored and the required-based status applies -/
+/-- the same for the strings the setter refuses (no parse, not exactly one statement, a statement that is not an
+    expression) and when nothing is configured: the formula is ignored and the required-based status applies -/
 theorem C15_ignored_required (cfg : Cfg) (L : List Leaf) (ps : List P) (t : Option Top)
-    (ht : t = none ∨ t = some .syntaxError ∨ t = some .multi ∨ t = some .stmtValueNone) :
+    (ht : (∀ f, t ≠ some (.expr f)) ∧ (∀ c, t ≠ some (.parserExc c))) :
     run cfg L ps t = .ok { state := specState ps,
                            major := majorOf (specState ps) (rows ps),
                            minor := minorNarrow cfg.managed (specState ps) (rows ps) } := by
-  rcases ht with rfl | rfl | rfl | rfl
-  · exact C15_required_def cfg L ps
-  · exact C15_required_def cfg L ps
-  · exact C15_required_def cfg L ps
-  · simp only [run, load]
-    rw [update_rows]
-    have hst : stateOf ((ps.map rowOf).map (·.disp)) = stateOf (ps.map displayed) := by
-      rw [List.map_map]; rfl
-    simp only [statusTree, hst]
+  match t, ht with
+  | none, _ => exact C15_required_def cfg L ps
+  | some .syntaxError, _ => exact C15_required_def cfg L ps
+  | some .multi, _ => exact C15_required_def cfg L ps
+  | some .stmtNoValue, _ => exact C15_required_def cfg L ps
+  | some .stmtValueNone, _ => exact C15_required_def cfg L ps
+  | some (.stmtValue _), _ => exact C15_required_def cfg L ps
+  | some (.parserExc c), h => exact absurd rfl (h.2 c)
+  | some (.expr f), h => exact absurd rfl (h.1 f)
 
 /-! ### Formula-based status -/
 
-/-- **C15, totality (partial).**  For every formula expression without one of the shapes recorded as known findings
-    (`Strict`: every callee is a name, every `any`/`all` call has exactly one positional argument and no keyword),
-    nested no deeper than the stack budget, when every pattern compiles: `update` returns Booleans, never an error,
-    and the major failure is the negation of the denotation when the formula denotes a Boolean and `true` in every
-    other case (construct outside the grammar, pattern matching nothing, list where a Boolean is needed). -/
+/-- **C15, totality (partial: stack budget).**  For EVERY formula expression — every `ast` shape: callee that is not
+    a name, `any`/`all` without argument, with several arguments or keywords, other functions, other operators, other
+    constants, any other node — evaluated within the stack budget, when no pattern makes the regex compiler raise an
+    unmapped exception: `update` returns Booleans, never an error, and the major failure is the negation of the
+    denotation when the formula denotes a Boolean and `true` in every other case (construct outside the grammar, pattern
+    matching nothing, invalid pattern, list where a Boolean is needed). -/
 theorem C15_formula_total_partial (cfg : Cfg) (L : List Leaf) (ps : List P) (f : Formula)
-    (hs : Strict f = true) (hd : depth f ≤ cfg.stack) (hL : LeavesCompile L) :
+    (hd : depth f ≤ cfg.stack) (hL : LeavesHandled L) :
     ∃ minor, run cfg L ps (some (.expr f))
       = .ok { state := specState ps, major := majorOfFormula L (rows ps) f, minor := minor } := by
   simp only [run, load]
   rw [update_rows]
   have hst : stateOf ((ps.map rowOf).map (·.disp)) = stateOf (ps.map displayed) := by
     rw [List.map_map]; rfl
-  simp only [statusTree, formulaMajor_strict cfg L ps f hs hd hL, hst]
+  simp only [statusTree, formulaMajor_eq cfg L ps f hd hL, hst]
   exact ⟨_, rfl⟩
 
 /-- **C15, soundness.**  For every formula of the statement's grammar (names and patterns combined with and / or /
     not / any(·) / all(·)) that denotes the Boolean `x`, the reported major failure is `!x`. -/
 theorem C15_formula_sound (cfg : Cfg) (L : List Leaf) (ps : List P) (f : Formula) (x : Bool)
-    (hw : wf f = true) (hd : depth f ≤ cfg.stack) (hL : LeavesCompile L)
+    (hd : depth f ≤ cfg.stack) (hL : LeavesHandled L)
     (hx : sem L (rows ps) f = some (.b x)) :
+    wf f = true ∧
     ∃ minor, run cfg L ps (some (.expr f)) = .ok { state := specState ps, major := !x, minor := minor } := by
-  obtain ⟨m, hm⟩ := C15_formula_total_partial cfg L ps f (wf_strict f hw) hd hL
-  refine ⟨m, ?_⟩
+  obtain ⟨m, hm⟩ := C15_formula_total_partial cfg L ps f hd hL
+  refine ⟨sem_some_wf L _ f _ hx, m, ?_⟩
   rw [hm]
   simp [majorOfFormula, hx]
 
-/-- **C15, "any other construct, or a pattern matching nothing, yields a major failure" (partial).**
-    Under the hypotheses of `C15_formula_total_partial`, a formula that is outside the grammar, or that does not denote
-    a Boolean, gives a major failure. -/
+/-- **C15, "any other construct, or a pattern matching nothing, yields a major failure" (partial: stack budget).**
+    A formula that is outside the grammar, or that does not denote a Boolean, gives a major failure. -/
 theorem C15_other_construct_major_partial (cfg : Cfg) (L : List Leaf) (ps : List P) (f : Formula)
-    (hs : Strict f = true) (hd : depth f ≤ cfg.stack) (hL : LeavesCompile L)
+    (hd : depth f ≤ cfg.stack) (hL : LeavesHandled L)
     (hno : wf f = false ∨ ∀ x, sem L (rows ps) f ≠ some (.b x)) :
     ∃ minor, run cfg L ps (some (.expr f)) = .ok { state := specState ps, major := true, minor := minor } := by
-  obtain ⟨m, hm⟩ := C15_formula_total_partial cfg L ps f hs hd hL
+  obtain ⟨m, hm⟩ := C15_formula_total_partial cfg L ps f hd hL
   refine ⟨m, ?_⟩
   rw [hm]
   have : majorOfFormula L (rows ps) f = true := by
@@ -129,12 +131,27 @@ theorem C15_other_construct_major_partial (cfg : Cfg) (L : List Leaf) (ps : List
         | l xs => rfl
   rw [this]
 
-/-- a pattern matching nothing: major failure (instance of the previous theorem, stated on the leaf itself) -/
-theorem C15_nomatch_major (cfg : Cfg) (L : List Leaf) (ps : List P) (k : Nat) (hk : L[k]? = some (.matching []))
-    (hstack : 1 ≤ cfg.stack) (hL : LeavesCompile L) :
+/-- **C15, "rather than an error" at full strength for every shape.**  For EVERY formula expression, every process list
+    and every stack budget (no hypothesis on the shape or the depth of the formula): if loading + `update` raises at
+    all, what escapes is `RecursionError` — no `AttributeError`, `IndexError`, `re.error`, `OverflowError` any more. -/
+theorem C15_only_recursion_escapes (cfg : Cfg) (L : List Leaf) (ps : List P) (f : Formula) (e : Err)
+    (hL : LeavesHandled L) (h : run cfg L ps (some (.expr f)) = .error e) : e = .recursion := by
+  simp only [run, load, update, statusTree, statusFormula, formulaMajor] at h
+  cases hev : evaluate L ps cfg.stack f with
+  | ok v => rw [hev] at h; cases v <;> simp at h
+  | error e' =>
+    rw [hev] at h
+    rcases evaluate_error L ps hL cfg.stack f e' hev with rfl | rfl
+    · simp [handled] at h
+    · simp [handled] at h; exact h.symm
+
+/-- a pattern matching nothing, or an invalid pattern (`re.error`, `OverflowError`): major failure -/
+theorem C15_nomatch_major (cfg : Cfg) (L : List Leaf) (ps : List P) (k : Nat)
+    (hk : L[k]? = some (.matching []) ∨ L[k]? = some (.reError 0) ∨ L[k]? = some (.reError 1))
+    (hstack : 1 ≤ cfg.stack) (hL : LeavesHandled L) :
     ∃ minor, run cfg L ps (some (.expr (.str k))) = .ok { state := specState ps, major := true, minor := minor } :=
-  C15_other_construct_major_partial cfg L ps (.str k) (by simp [Strict]) (by simpa [depth] using hstack) hL
-    (Or.inr (fun x => by simp [sem, hk]))
+  C15_other_construct_major_partial cfg L ps (.str k) (by simpa [depth] using hstack) hL
+    (Or.inr (fun x => by rcases hk with hk | hk | hk <;> simp [sem, hk]))
 
 /-- The full-strength totality clause: for EVERY formula expression, every leaf table and every stack budget,
     `update` returns Booleans and the major failure is the one of the definition. -/
@@ -142,34 +159,17 @@ def C15_formula_total_statement : Prop :=
   ∀ (cfg : Cfg) (L : List Leaf) (ps : List P) (f : Formula),
     ∃ s, run cfg L ps (some (.expr f)) = .ok s ∧ s.major = majorOfFormula L (rows ps) f
 
-/-- Known finding `C15:evaluate:AttributeError:call-func-not-name`: `os.system("x")` makes `evaluate` raise
-    `AttributeError` (`node.func.id`), which `update_status_formula` does not handle.
-    Witness replayed on the implementation by `corpus/C15/kf_call_func_not_name.json`. -/
+/-- Known finding `C15:evaluate:RecursionError:deep-nesting` (the only input class left): `evaluate` is recursive and
+    `RecursionError` is not handled — a formula nested deeper than the interpreter stack allows escapes `update`.
+    Witness (stack budget 2, `not not "a"`); replayed on the implementation with the real budget by
+    `corpus/C15/kf_deep_evaluate.json` (1400 nested `not`). -/
 theorem C15_formula_total_refuted : ¬ C15_formula_total_statement := by
   intro h
-  obtain ⟨s, hs, _⟩ := h {} [.exact 0] [{ state := .running }] (.call .notName [.str 0] 0)
-  have : run {} [.exact 0] [{ state := .running }] (some (.expr (.call .notName [.str 0] 0)))
-      = .error .calleeAttr := rfl
+  obtain ⟨s, hs, _⟩ := h { stack := 2 } [.exact 0] [{ state := .running }] (.notOp (.notOp (.str 0)))
+  have : run { stack := 2 } [.exact 0] [{ state := .running }] (some (.expr (.notOp (.notOp (.str 0)))))
+      = .error .recursion := rfl
   rw [this] at hs
   cases hs
-
-/-- the other exception classes of the same finding family, each with its witness (replayed by `corpus/C15/kf_*.json`):
-    `all()` — `IndexError`; an invalid regular expression — `re.error`; nesting beyond the stack — `RecursionError` -/
-theorem C15_formula_total_refuted_witnesses :
-    run {} [] [] (some (.expr (.call .all [] 0))) = .error .noArg
-    ∧ run {} [.reError 0] [] (some (.expr (.str 0))) = .error (.regex 0)
-    ∧ run { stack := 2 } [.exact 0] [{ state := .running }] (some (.expr (.notOp (.notOp (.str 0))))) = .error .recursion :=
-  ⟨rfl, rfl, rfl⟩
-
-/-- Known finding `C15:formula-major:call-extra-args-ignored`: `all("a", "b")` with `b` FATAL reports no major
-    failure — the second argument is silently dropped (the definition gives a major failure: not in the grammar). -/
-theorem C15_extra_args_ignored :
-    run {} [.exact 0, .exact 1] [{ state := .running }, { state := .fatal }]
-        (some (.expr (.call .all [.str 0, .str 1] 0)))
-      = .ok { state := .running, major := false, minor := true }
-    ∧ majorOfFormula [.exact 0, .exact 1] (rows [{ state := .running }, { state := .fatal }])
-        (.call .all [.str 0, .str 1] 0) = true :=
-  ⟨rfl, rfl⟩
 
 /-! ### Strings that are not one expression -/
 
@@ -179,37 +179,28 @@ def C15_not_formula_statement : Prop :=
     ∃ s, run cfg L ps (some t) = .ok s ∧
       (s.major = true ∨ requiredOk cfg.managed (rows ps) s.state s.major s.minor = true)
 
-/-- Known finding `C15:status_tree:AttributeError:stmt-without-value`: `import os` (one statement, not an expression,
-    no `value` attribute) is stored by the setter and makes `status_tree` raise `AttributeError` at every `update`. -/
-theorem C15_not_formula_refuted : ¬ C15_not_formula_statement := by
-  intro h
-  obtain ⟨s, hs, _⟩ := h {} [] [] .stmtNoValue (by intro f hf; cases hf)
-  have : run {} [] [] (some .stmtNoValue) = .error .stmtAttr := rfl
-  rw [this] at hs
-  cases hs
-
-/-- Known finding `C15:not-a-formula:stmt-value-evaluated`: `x = "a"` (an assignment) is evaluated as the formula
-    `"a"`: with `a` RUNNING and a required process `b` FATAL no major failure is reported, although the
-    required-based status has one. -/
-theorem C15_stmt_value_evaluated :
-    run {} [.exact 0] [{ state := .running }, { state := .fatal, required := true }] (some (.stmtValue (.str 0)))
-      = .ok { state := .running, major := false, minor := true }
-    ∧ majorOf .running (rows [{ state := .running }, { state := .fatal, required := true }]) = true :=
-  ⟨rfl, rfl⟩
-
-/-- the two exceptions that escape the loading itself (`ast.parse` raising something else than `SyntaxError`:
-    `RecursionError` / `MemoryError` on very deep nesting) -/
+/-- the exceptions that escape the loading itself (`ast.parse` raising something else than `SyntaxError`:
+    `RecursionError` / `MemoryError` on very deep nesting): the setter only catches `SyntaxError` -/
 theorem C15_parser_exception_escapes (cfg : Cfg) (L : List Leaf) (ps : List P) (c : Nat) :
     run cfg L ps (some (.parserExc c)) = .error (.parser c) := rfl
 
-/-- **C15, strings that are not one expression (partial).**  Strings that do not parse, that hold zero or several
-    statements, and single statements whose value is `None` are ignored: the required-based status applies
-    (excluded: the statement kinds of the two known findings above, and parser exceptions). -/
+/-- Known findings `C15:setter:RecursionError:deep-nesting` / `C15:setter:MemoryError:deep-nesting` (the only input
+    class left): replayed by `corpus/C15/kf_deep_setter_*.json`. -/
+theorem C15_not_formula_refuted : ¬ C15_not_formula_statement := by
+  intro h
+  obtain ⟨s, hs, _⟩ := h {} [] [] (.parserExc 3) (by intro f hf; cases hf)
+  rw [C15_parser_exception_escapes] at hs
+  cases hs
+
+/-- **C15, strings that are not one expression (partial: parser exceptions excluded).**  Strings that do not parse,
+    that hold zero or several statements, and single statements that are not expressions (`import os`, `x = "a"`,
+    `return`) are ignored: the required-based status applies. -/
 theorem C15_not_formula_partial (cfg : Cfg) (L : List Leaf) (ps : List P) (t : Top)
-    (ht : t = .syntaxError ∨ t = .multi ∨ t = .stmtValueNone) :
+    (hne : ∀ f, t ≠ .expr f) (hnp : ∀ c, t ≠ .parserExc c) :
     ∃ s, run cfg L ps (some t) = .ok s ∧ requiredOk cfg.managed (rows ps) s.state s.major s.minor = true := by
-  refine ⟨_, C15_ignored_required cfg L ps (some t) ?_, ?_⟩
-  · rcases ht with rfl | rfl | rfl <;> simp
+  refine ⟨_, C15_ignored_required cfg L ps (some t) ⟨?_, ?_⟩, ?_⟩
+  · intro f hf; injection hf with hf; exact hne f hf
+  · intro c hc; injection hc with hc; exact hnp c hc
   · simp [requiredOk]
 
 /-! ### Frame -/
@@ -243,7 +234,7 @@ theorem C15_judge_accepts_required (cfg : Cfg) (L : List Leaf) (ps : List P) :
   have hst : ((fun x : Row => x.disp) ∘ rowOf) = displayed := rfl
   simp [judge, hst, requiredOk]
 
-/-- with a strict formula the judge accepts what the model reports -/
+/-- with a formula the judge accepts what the model reports under `C15_formula_total_partial` -/
 theorem C15_judge_accepts_formula (cfg : Cfg) (L : List Leaf) (ps : List P) (f : Formula) (minor : Bool) :
     judge cfg.managed L ps (some (.expr f)) (.status (specState ps) (majorOfFormula L (rows ps) f) minor) = none := by
   have hst : ((fun x : Row => x.disp) ∘ rowOf) = displayed := rfl
@@ -251,30 +242,41 @@ theorem C15_judge_accepts_formula (cfg : Cfg) (L : List Leaf) (ps : List P) (f :
 
 /-! ### Non-vacuity: the hypotheses are satisfiable by non-trivial values -/
 
-/-- `all("web.*") and not "db"` over web_1 RUNNING, web_2 STARTING, db FATAL: in the grammar, strict, depth 3,
-    denotes `true`: no major failure; db (not required, sequenced) gives a minor failure -/
+/-- `all("web.*") and not "db"` over web_1 RUNNING, web_2 STARTING, db FATAL: in the grammar, depth 3, denotes `true`:
+    no major failure; db (not required, sequenced) gives a minor failure -/
 example :
     let f : Formula := .boolOp true [.call .all [.str 0] 0, .notOp (.str 1)]
     let L : List Leaf := [.matching [0, 1], .exact 2]
     let ps : List P := [{ state := .running }, { state := .starting }, { state := .fatal }]
-    wf f = true ∧ Strict f = true ∧ depth f ≤ ({} : Cfg).stack ∧ sem L (rows ps) f = some (.b true)
+    wf f = true ∧ depth f ≤ ({} : Cfg).stack ∧ sem L (rows ps) f = some (.b true)
       ∧ run {} L ps (some (.expr f)) = .ok { state := .starting, major := false, minor := true } :=
-  ⟨rfl, rfl, by decide, rfl, rfl⟩
+  ⟨rfl, by decide, rfl, rfl⟩
 
-example : LeavesCompile [.matching [0, 1], .exact 2] := by
+example : LeavesHandled [.matching [0, 1], .exact 2, .reError 0] := by
   intro k c h
   match k with
   | 0 => simp at h
   | 1 => simp at h
-  | k + 2 => simp at h
+  | 2 => simp at h; subst h; rfl
+  | k + 3 => simp at h
 
-/-- a strict formula outside the grammar (`len("a") or 1`), and a pattern matching nothing: major failure -/
-example : run {} [.exact 0, .matching []] [{ state := .running }]
-      (some (.expr (.boolOp false [.call .otherName [.str 0] 0, .const])))
-    = .ok { state := .running, major := true, minor := false }
-  ∧ run {} [.exact 0, .matching []] [{ state := .running }] (some (.expr (.str 1)))
-    = .ok { state := .running, major := true, minor := false } :=
-  ⟨rfl, rfl⟩
+/-- the shapes repaired in `/repo` (regression cases `corpus/C15/kf_*.json`): `os.system("x")`, `all()`,
+    `all("a", "b")` with b FATAL, an invalid pattern, `len("a") or 1`, a pattern matching nothing: major failure;
+    `import os` and `x = "a"` with a required FATAL process: ignored, the required-based major failure is reported -/
+example :
+    let L : List Leaf := [.exact 0, .exact 1, .reError 0, .matching []]
+    let ps : List P := [{ state := .running }, { state := .fatal }]
+    let bad : Except Err Status := .ok { state := .running, major := true, minor := false }
+    run {} L ps (some (.expr (.call .notName [.str 0] 0))) = bad
+    ∧ run {} L ps (some (.expr (.call .all [] 0))) = bad
+    ∧ run {} L ps (some (.expr (.call .all [.str 0, .str 1] 0))) = bad
+    ∧ run {} L ps (some (.expr (.call .any [.str 0] 1))) = bad
+    ∧ run {} L ps (some (.expr (.str 2))) = bad
+    ∧ run {} L ps (some (.expr (.boolOp false [.call .otherName [.str 0] 0, .const]))) = bad
+    ∧ run {} L ps (some (.expr (.str 3))) = bad
+    ∧ run {} L [{ state := .running }, { state := .fatal, required := true }] (some .stmtNoValue) = bad
+    ∧ run {} L [{ state := .running }, { state := .fatal, required := true }] (some (.stmtValue (.str 0))) = bad :=
+  ⟨rfl, rfl, rfl, rfl, rfl, rfl, rfl, rfl, rfl⟩
 
 /-- required-based: STOPPING wins over STARTING; a required STOPPED process of a non-stopped application is a major
     failure; a non-required FATAL one of a managed application is a minor failure only without a major one -/
